@@ -128,4 +128,13 @@ CHECKS["C16"] = {"text": "harness/schema.py translates the save format of the CU
     "note": COMMON_NOTE + " PARTIAL: the per-shape conversion law (e.g. BaseTaskState(int(s)) = s, get_task_list(ID=t.ID)[0] is t for unique IDs) is a Section hypothesis of the theorem, exercised by the oracle's "
     "write/read/write comparison, not proved about Python; re-simulation equality (c) is the oracle plus C09/C15 on the model side.",
     "technique": "Coq proof over a schema regenerated from the source by a Python-ast translator (generic round-trip theorem + vm_compute acceptance of the generated schema) + schema/runtime key correspondence + round-trip oracle at four life stages"}
+CHECKS["C12"] = {"text": "The model's update_pert (forward pass, critical path length, backward pass: frontier lists, relaxation with the code's comparison directions and the -1 sentinel, fuel) is proved to compute the CPM "
+    "recurrences for EVERY finish-to-start DAG (any shape, heads, tails, zero remaining work; acyclicity given as a topological rank), EVERY time t and EVERY state with non-negative remaining work: ES = t at heads, "
+    "ES = max EF of the predecessors (upper bound for all, attained by one), EF = ES + remaining, CPL = max EF (attained at a tail), LF = CPL at tails, LF = min LS of the successors, LS = LF - remaining; slack >= 0 "
+    "everywhere, zero at the CPL-defining tail, and every zero-slack task has a zero-slack predecessor finishing at its start (a critical path). The frontier iteration never runs out of fuel (generic worklist theorem). "
+    "Run level: the recurrences hold in every `updated` snapshot of every freshly initialised run (non-negative remaining work is proved as a run invariant, using C02's completeness of check_finished) and after the "
+    "update inside initialize. The model is tied to the code by the correspondence on est/eft/lst/lft/critical_path_length at every snapshot; an independent topological CPM oracle searches simulated runs and direct "
+    "sequences of progress updates + update_PERT_data(t).",
+    "note": COMMON_NOTE,
+    "technique": "Coq proof (generic frontier/worklist invariant with rank-based termination, instantiated for the forward and backward pass; Q arithmetic by lra) + model/implementation correspondence of PERT fields + independent CPM oracle"}
 NOT_APPLICABLE = {}
